@@ -153,7 +153,7 @@ func Supervise(spec Spec, tier string) int {
 				results[i].deathGroup = strings.TrimRight(string(jb[16:]), "\x00")
 				results[i].deathIndex = idx
 			}
-			results[i].deathHang = strings.Contains(string(func() []byte { b, _ := os.ReadFile(logp); return b }()), "HANG: no case completed")
+			results[i].deathHang = strings.Contains(string(func() []byte { b, _ := os.ReadFile(logp); return b }()), "HANG: no case completed") || (err != nil && strings.Contains(err.Error(), "exit status 3"))
 			lb, _ := os.ReadFile(logp)
 			tail := string(lb)
 			if len(tail) > 3000 {
